@@ -100,8 +100,8 @@ func verifBool(name string) bool  { return uint8(verifVal(verifName(name))) != 0
 func verifBytes(name string, max int) []byte {
 	full := verifName(name)
 	n := int(verifVal(full + ".len"))
-	if n > max {
-		n = max
+	if n > max || n < 0 {
+		panic(verifAssumeFail{})
 	}
 	b := make([]byte, n)
 	for i := range b {
